@@ -466,9 +466,16 @@ From Gen Require Import GenFields.
 From Gen Require GenCpu65 GenCpuAlt.
 From Props Require Import SafeLib CbLib StopProps.
 From Run Require C12_GenCpu65 C12_GenCpuAlt C12_cb_GenCpu65 C12_cb_GenCpuAlt.
-From Run Require Import C12_run.
 Import ListNotations.
 Local Open Scope Z_scope.
+
+(* the interpreters' entry points as the partial functions of Props/StopProps.v (same definitions as in C12_run.v, repeated
+   here so that the two files compile in parallel) *)
+Definition ostep (f : st -> res (Z * bool)) (s : st) : option (bool * st) :=
+  match f s with Ok (_, b) s' => Some (b, s') | Panic => None end.
+Definition ocall (f : st -> res unit) (s : st) : option st :=
+  match f s with Ok _ s' => Some s' | Panic => None end.
+Definition stoppedb (s : st) : bool := z2b (get f_Stopped s).
 
 (* "the Step issued at s fetches opcode $DB": it does not panic and its trace is  tC' ++ [EvR a 219] ++ pc ++ tA ++ trace s
    with a = PBR:PC of the fetch, pc the OnPC callback iff registered at a, tA the interrupt entry (no callback) *)
@@ -495,6 +502,26 @@ Section OneModel.
     exists tA tC opcode,
       trace s' = tC ++ pc ++ tA ++ trace s /\\ cbs tA = [] /\\ (exists tC', tC = tC' ++ [EvR a opcode]) /\\
       (get f_Stopped s' <> get f_Stopped s -> opcode = %(stp)d).
+
+  Lemma c_step : forall s, Inv (Bty fwidth) s ->
+    exists b s', ostep Step s = Some (b, s') /\\ Inv (Bty fwidth) s' /\\ b = stoppedb s' /\\ (stoppedb s' = stoppedb s \\/ stoppedb s' = true).
+  Proof.
+    intros s H. pose proof (Hstep s H) as HS. unfold ostep. destruct (Step s) as [[n b] s'|]; simpl in HS; [|contradiction].
+    destruct HS as [(c & Hr & _ & _ & Hs) Hi]. inversion Hr; subst. exists (z2b (get f_Stopped s')), s'.
+    split; [reflexivity|]. split; [exact Hi|]. split; [reflexivity|]. unfold stoppedb.
+    destruct Hs as [Hs|Hs]; rewrite Hs; [left | right]; reflexivity.
+  Qed.
+  Lemma c_reset : forall s, Inv (Bty fwidth) s -> exists s', ocall Reset s = Some s' /\\ Inv (Bty fwidth) s' /\\ stoppedb s' = false.
+  Proof.
+    intros s H. pose proof (Hreset s H) as HS. unfold ocall. destruct (Reset s) as [u s'|]; simpl in HS; [|contradiction].
+    destruct HS as [Hs Hi]. exists s'. split; [reflexivity|]. split; [exact Hi|]. unfold stoppedb. rewrite Hs. reflexivity.
+  Qed.
+  Lemma c_keep (f : st -> res unit) : (forall s, Inv (Bty fwidth) s -> safe (fun _ s' => get f_Stopped s' = get f_Stopped s /\\ Inv (Bty fwidth) s') (f s)) ->
+    forall s, Inv (Bty fwidth) s -> exists s', ocall f s = Some s' /\\ Inv (Bty fwidth) s' /\\ stoppedb s' = stoppedb s.
+  Proof.
+    intros Hf s H. pose proof (Hf s H) as HS. unfold ocall. destruct (f s) as [u s'|]; simpl in HS; [|contradiction].
+    destruct HS as [Hs Hi]. exists s'. split; [reflexivity|]. split; [exact Hi|]. unfold stoppedb. rewrite Hs. reflexivity.
+  Qed.
 
   (* one Step: the Stopped field changes only when the fetched opcode is $DB, and then to 1 *)
   Theorem stop_only_stp : forall s, Inv (Bty fwidth) s -> forall r s', Step s = Ok r s' ->
@@ -528,7 +555,7 @@ Section OneModel.
   Theorem stop_never_before_inst : forall h s, Inv (Bty fwidth) s -> stoppedb s = false -> NOSTP h s ->
     exists os sf, HRUN h s = Some (os, sf) /\\ Inv (Bty fwidth) sf /\\ stoppedb sf = false /\\ all_false os.
   Proof.
-    exact (stop_never_before st _ _ _ _ stoppedb (Inv (Bty fwidth)) (c_step Step Hstep) (c_reset Reset Hreset)
+    exact (stop_never_before st _ _ _ _ stoppedb (Inv (Bty fwidth)) c_step c_reset
              (c_keep TriggerIRQ Hirq) (c_keep triggerNMI Hnmi) (fetches_stp Step) c_stp).
   Qed.
 
@@ -537,7 +564,7 @@ Section OneModel.
     exists o1 s1, HRUN (h1 ++ [CReset]) s = Some (o1, s1) /\\ Inv (Bty fwidth) s1 /\\
       (NOSTP h2 s1 -> exists o2 sf, HRUN h2 s1 = Some (o2, sf) /\\ Inv (Bty fwidth) sf /\\ stoppedb sf = false /\\ all_false o2).
   Proof.
-    exact (stop_never_before_since_reset st _ _ _ _ stoppedb (Inv (Bty fwidth)) (c_step Step Hstep) (c_reset Reset Hreset)
+    exact (stop_never_before_since_reset st _ _ _ _ stoppedb (Inv (Bty fwidth)) c_step c_reset
              (c_keep TriggerIRQ Hirq) (c_keep triggerNMI Hnmi) (fetches_stp Step) c_stp).
   Qed.
 End OneModel.
